@@ -345,15 +345,16 @@ def _err(e):
     return {"res": "err", "exc": type(e).__name__, "formerr": isinstance(e, dns.exception.FormError)}
 
 
-def decode(rdclass, rdtype, rdata, origin):
-    """dns.rdata.from_wire on rdata embedded in a larger message, plus the same through an explicit
-    parser to observe how many octets were consumed.  Returns (event fields, object or None)."""
-    buf = PRE + rdata + SUF
+def decode(rdclass, rdtype, rdata, origin, pre=PRE, suf=SUF):
+    """dns.rdata.from_wire on rdata embedded in a larger message (pre + rdata + suf), plus the same
+    through an explicit parser to observe how many octets were consumed.  Returns (event fields,
+    object or None)."""
+    buf = pre + rdata + suf
     ev = {}
     rd = None
     watchdog(True)
     try:
-        rd = dns.rdata.from_wire(rdclass, rdtype, buf, len(PRE), len(rdata), origin)
+        rd = dns.rdata.from_wire(rdclass, rdtype, buf, len(pre), len(rdata), origin)
         ev["res"] = "ok"
     except (Exception, Hang) as e:  # noqa: BLE001
         ev.update(_err(e))
@@ -364,11 +365,11 @@ def decode(rdclass, rdtype, rdata, origin):
         ev["pres"], ev["cons"], ev["same"] = "err", -1, False
         return ev, None
     try:
-        p = dns.wire.Parser(buf, len(PRE))
+        p = dns.wire.Parser(buf, len(pre))
         with p.restrict_to(len(rdata)):
             rd_p = dns.rdata.from_wire_parser(rdclass, rdtype, p, origin)
         ev["pres"] = "ok"
-        ev["cons"] = p.current - len(PRE)
+        ev["cons"] = p.current - len(pre)
         ev["same"] = bool(rd is not None and rd_p == rd)
     except Exception as e:  # noqa: BLE001
         ev["pres"] = "err"
@@ -399,12 +400,32 @@ def fixed_point(rdclass, rdtype, rd, origin, ev):
 
 
 def dec_event(key, rdclass, rdtype, ft, b):
+    """one octet string offered as RDATA in three placements: in the middle of a message (fields of
+    the event itself), as the tail of the message ("tl": nothing follows the RDATA) and as the whole
+    buffer ("wh": offset 0, nothing before or after)."""
     b = bytes(b)
     ev = {"op": "dec", "ft": ft, "b": list(b)}
     r, rd = decode(rdclass, rdtype, b, None)
     ev.update(r)
     if rd is not None:
         fixed_point(rdclass, rdtype, rd, None, ev)
+    if ev["op"] == "hang":
+        return ev
+    for tag, pre in (("tl", PRE), ("wh", b"")):
+        pe = {}
+        r, rd = decode(rdclass, rdtype, b, None, pre=pre, suf=b"")
+        pe.update(r)
+        if pe.get("op") == "hang":
+            ev["op"] = "hang"
+            return ev
+        if rd is not None:
+            fixed_point(rdclass, rdtype, rd, None, pe)
+            # lossless shortening of the log: a re-encoding equal to the one recorded for the
+            # middle placement is not repeated (the trace spec then reads it from there)
+            for k in ("reenc", "reenc2"):
+                if k in ev and pe.get(k) == ev[k]:
+                    del pe[k]
+        ev[tag] = pe
     return ev
 
 
@@ -449,7 +470,19 @@ def apply_fault(b, ft):
     return bytes(b)
 
 
-def enc_event(key, rdclass, rdtype, v, use_origin):
+class ReentrantOption(dns.edns.GenericOption):
+    """user-defined EDNS option whose to_wire() encodes (and compares) other records before
+    returning its own octets: legal user code, and the shape of any re-entrant use of to_wire()"""
+
+    def to_wire(self, file=None):
+        mx_cls = dns.rdata.get_rdata_class(1, 15)
+        a = mx_cls(1, 15, 10, dns.name.Name([b"mail", b"example", b""]))
+        a.to_wire()
+        a == mx_cls(1, 15, 10, dns.name.Name([b"MAIL", b"example", b""]))  # noqa: B015  (uses to_wire as well)
+        return super().to_wire(file)
+
+
+def enc_event(key, rdclass, rdtype, v, use_origin, reentrant=False):
     ev = {"op": "enc", "v": v, "org": use_origin}
     origin = ORIGIN if use_origin else None
     # which class does the registry name for this (class, type)?  An implemented pair must not
@@ -459,6 +492,10 @@ def enc_event(key, rdclass, rdtype, v, use_origin):
     ev["gen"] = cls is dns.rdata.GenericRdata
     try:
         rd = build(key, v, import_impl(key) if ev["gen"] else cls)
+        if reentrant:
+            rd = rd.replace(options=[ReentrantOption(o.otype, o.data) if type(o) is dns.edns.GenericOption else o
+                                     for o in rd.options])
+            ev["reent"] = True
         ev["built"] = "ok"
     except Exception as e:  # noqa: BLE001
         ev["built"] = "err"
@@ -547,6 +584,26 @@ def _run_job(job):
     tr = {"tid": job["tid"], "ty": key, "ev": []}
     if job["k"] == "fresh":
         return run_fresh(job["order"], [job["item"]])[0]
+    if job["k"] == "seq":
+        # several values encoded / decoded one after the other in this process (with the origin):
+        # decoders must not remember anything from one call to the next
+        for v in job["vs"]:
+            ev, w = enc_event(key, rdclass, rdtype, v, True)
+            ev["fts"] = []
+            tr["ev"].append(ev)
+            if w is None:
+                break
+        return tr
+    if job["k"] == "reent":
+        # an OPT record one of whose options calls back into user code that encodes another record
+        # while the OPT encoding is in progress
+        for use_origin in (False, True):
+            ev, w = enc_event(key, rdclass, rdtype, job["v"], use_origin, reentrant=True)
+            ev["fts"] = []
+            tr["ev"].append(ev)
+            if w is None:
+                break
+        return tr
     if job["k"] == "vec":
         v = job["v"]
         wire = None
@@ -587,6 +644,30 @@ def _run_job(job):
         for b in job["bs"]:
             tr["ev"].append(dec_event(key, rdclass, rdtype, ["rand", 0, 0], b))
     return tr
+
+
+def swapcase_names(key, v):
+    """the same value with the ASCII letters of every embedded name in the other case; None if the
+    value has no name with a letter"""
+    import copy
+    v2 = copy.deepcopy(v)
+    changed = [False]
+
+    def sw(n):
+        new = [[(x ^ 32) if (65 <= x <= 90 or 97 <= x <= 122) else x for x in lab] for lab in n["labels"]]
+        if new != n["labels"]:
+            changed[0] = True
+        n["labels"] = new
+
+    for f, x in zip(TABLE[key]["fields"], v2):
+        if f["kind"] == "name":
+            sw(x)
+        elif f["kind"] == "names":
+            for n in x:
+                sw(n)
+        elif f["kind"] == "gateway" and x[0] == "name":
+            sw(x[1])
+    return v2 if changed[0] else None
 
 
 def import_impl(key):
